@@ -530,7 +530,7 @@ def install(E):
             n = E.copy_bound
             cs = [a.len == b.len]
             g0 = E.guard
-            E.oblige("unwind", z3.ULE(a.len, bv(n)), oid="bytes.Equal-len@%s" % ins.get("pos", ""))
+            E.oblige("bound", z3.ULE(a.len, bv(n)), oid="bytes.Equal-len@%s" % ins.get("pos", ""))
             for i in range(n):
                 inb = And(z3.ULT(bv(i), a.len), a.len == b.len)
                 E.guard = And(g0, inb)
@@ -633,3 +633,112 @@ def install(E):
     gi = E.cfg.setdefault("global_init", {})
     for g in E.cfg.get("opaque_globals", []):
         gi[g] = (lambda g: lambda E, t: opaque_fill(E, t, g))(g)
+
+
+def install_aead(E):
+    """Ideal AEAD (INT-CTXT + correctness) for github.com/miscreant/miscreant.go:
+    NewAEAD(alg, key, 16): error iff len(key) not in {32, 64}.
+    Seal(dst=nil, nonce, pt, ad): panics iff len(nonce) != 16; returns a fresh symbolic ciphertext of
+    len(pt)+16 bytes and logs (key, nonce, pt, ad, ct).
+    Open(dst=nil, nonce, ct, ad): panics iff len(nonce) != 16; succeeds (returning the logged plaintext)
+    iff some logged tuple has byte-wise equal key, nonce, ciphertext and associated data; else error."""
+    I = E.intercepts
+    log = E.ghost.setdefault("aead_log", [])
+    B = E.cfg.get("aead_bound", 192)
+
+    def snap(sl, what):
+        n = E.conc(sl.len)
+        if n is None:
+            n = B
+            E.oblige("bound", z3.ULE(sl.len, bv(B)), oid="aead-%s-len<=%d" % (what, B))
+        g0 = E.guard
+        bs = []
+        for i in range(n):
+            inb = z3.ULT(bv(i), sl.len)
+            if is_false(z3.simplify(inb)):
+                bs.append(bv(0, 8))
+                continue
+            E.guard = And(g0, inb)
+            try:
+                bs.append(E.slice_get(sl, bv(i)))
+            finally:
+                E.guard = g0
+        return (bs, sl.len)
+
+    def snap_eq(a, b):
+        (ab, al), (bb, bl) = a, b
+        cs = [al == bl]
+        for i in range(min(len(ab), len(bb))):
+            cs.append(Or(Not(z3.ULT(bv(i), al)), ab[i] == bb[i]))
+        # any position beyond the shorter snapshot can only be inside both if lengths exceed it
+        m = min(len(ab), len(bb))
+        if len(ab) != len(bb):
+            cs.append(z3.ULE(al, bv(m)))
+        return And(*cs)
+
+    def new_aead(E, name, args, ins):
+        alg, key, nsz = args
+        kl = key.len
+        ok = Or(kl == 32, kl == 64)
+        k = snap(key, "key")
+        err = E.err_token()
+        val = Iface(((TRUE, "$aead", ("aead", k, E.conc(nsz))),))
+        res = ite(ok, val, Iface.nil())
+        return (res, ite(ok, Iface.nil(), err))
+    I["github.com/miscreant/miscreant.go.NewAEAD"] = new_aead
+
+    def aead_invoke(E, payload, method, args, ins):
+        _, key, nsz = payload
+        pos = ins.get("pos", "") if ins else ""
+        if method == "NonceSize":
+            return bv(nsz)
+        if method == "Overhead":
+            return bv(16)
+        if method == "Seal":
+            dst, nonce, pt, ad = args
+            if not is_true(dst.base.is_nil_cond()) and E.conc(dst.len) != 0:
+                raise Exception("AEAD.Seal with non-empty dst")
+            E.oblige("panic", nonce.len == nsz, oid="aead.Seal-nonce-length@%s" % pos, pos=pos)
+            n = snap(nonce, "nonce")
+            p = snap(pt, "plaintext")
+            a = snap(ad, "ad")
+            E.fresh_n += 1
+            ctarr = z3.Const("aead_ct!%d" % E.fresh_n, z3.ArraySort(BV64, z3.BitVecSort(8)))
+            ctlen = z3.simplify(pt.len + 16)
+            oid = E.alloc(None, ZA(ctarr, None), name="aead.ct")
+            ct = Slice(Ptr.to(oid), bv(0), ctlen, ctlen)
+            nct = E.conc(ctlen)
+            cbs = [z3.Select(ctarr, bv(i)) for i in range(nct if nct is not None else len(p[0]) + 16)]
+            log.append({"g": E.guard, "key": key, "nonce": n, "pt": p, "ad": a, "ct": (cbs, ctlen)})
+            return ct
+        if method == "Open":
+            dst, nonce, ct, ad = args
+            E.oblige("panic", nonce.len == nsz, oid="aead.Open-nonce-length@%s" % pos, pos=pos)
+            if not log:
+                # nothing was ever sealed: nothing can verify
+                E.ghost.setdefault("aead_opens", []).append(FALSE)
+                return (Slice.nil(), E.err_token())
+            n = snap(nonce, "nonce")
+            c = snap(ct, "ciphertext")
+            a = snap(ad, "ad")
+            ok = FALSE
+            ptlen = z3.simplify(ct.len - 16)
+            maxpt = max([len(e["pt"][0]) for e in log] + [0])
+            ptb = [bv(0, 8)] * maxpt
+            for e in log:
+                m = And(e["g"], snap_eq(e["key"], key), snap_eq(e["nonce"], n), snap_eq(e["ct"], c), snap_eq(e["ad"], a))
+                if is_false(m):
+                    continue
+                first = And(m, Not(ok))
+                for i in range(len(e["pt"][0])):
+                    ptb[i] = zif(first, e["pt"][0][i], ptb[i])
+                ok = Or(ok, m)
+            arr = z3.K(BV64, bv(0, 8))
+            za = ZA(arr, None, {i: ptb[i] for i in range(maxpt)})
+            oid = E.alloc(None, za, name="aead.pt")
+            res = Slice(Ptr.to(oid), bv(0), ptlen, ptlen)
+            E.ghost.setdefault("aead_opens", []).append(ok)
+            return (ite(ok, res, Slice.nil()), ite(ok, Iface.nil(), E.err_token()))
+        raise Exception("AEAD method %s" % method)
+    I["$invoke:$aead.*"] = aead_invoke
+    doc("miscreant AEAD (ideal)", install_aead.__doc__)
